@@ -991,6 +991,17 @@ def special_cases(strict=True):
         {'main.a2l': _HEAD + '    /begin A2ML\n      block "IF_DATA" taggedunion if_data { "XCP" taggedstruct { (block "DAQ" struct { uint; })*; }; };\n'
          '    /end A2ML\n    /begin IF_DATA XCP\n      /begin DAQ 1 /end DAQ\n      /include "if.a2l"\n      /begin DAQ 3 /end DAQ\n    /end IF_DATA\n' + _TAIL,
          'if.a2l': '/begin DAQ 2 /end DAQ\n'})
+    # uninterpreted IF_DATA whose content comes (partly or wholly) from an include file: the leading tag in the include file,
+    # in the main file, nested blocks and keywords on either side
+    add('IF_DATA: the whole content, leading tag first, from an include file',
+        {'main.a2l': _HEAD + '    /begin IF_DATA /include "sub/xcp.a2l" /end IF_DATA\n' + _TAIL,
+         'sub/xcp.a2l': 'XCP 1 /begin DAQ 2 /begin EVENT 3 /end EVENT /end DAQ\n'})
+    add('IF_DATA inside a MEASUREMENT: the whole content from an include file',
+        {'main.a2l': _HEAD + _meas('m1', '      /begin IF_DATA\n        /include "xcp.a2l"\n      /end IF_DATA\n') + _TAIL,
+         'xcp.a2l': 'XCP 1 0x10 /begin DAQ 2 /end DAQ K 3 /begin SEG "s" /begin PAGE 1 /end PAGE /end SEG\n'})
+    add('IF_DATA: leading tag in the main file, blocks from two include files',
+        {'main.a2l': _HEAD + '    /begin IF_DATA XCP 1\n      /include "a.a2l"\n      K 2\n      /include "b.a2l"\n    /end IF_DATA\n' + _TAIL,
+         'a.a2l': '/begin DAQ 1 /end DAQ /begin DAQ 2 /end DAQ\n', 'b.a2l': '/begin SEG 3 /begin PAGE 4 /end PAGE /end SEG\n'})
     # faults that do not depend on a split
     add('missing include', {'main.a2l': _HEAD + '    /include "nothing.a2l"\n' + _TAIL}, expect='error',
         names=['nothing.a2l'], kind='missing')
@@ -1028,7 +1039,10 @@ def case_line(case):
     files = []
     for path in sorted(case['files']):
         files.append([path, _bytes(case['files'][path] or '')])
-    return sx.enc([files, case['main'], 1 if case.get('strict', True) else 0, _bytes(case.get('flat') or '')])
+    items = [files, case['main'], 1 if case.get('strict', True) else 0, _bytes(case.get('flat') or '')]
+    if case.get('ops'):
+        items.append(case['ops'])          # edits through the API before the model is written (harness kind INCL)
+    return sx.enc(items)
 
 
 def cleanup_tmp():
